@@ -21,7 +21,7 @@ Definition modes_model (c : gen_input * registry * bool) : bool * list path :=
   end.
 Definition run_modes (cases : list ((gen_input * registry * bool) * (bool * list path))) : list N :=
   report (fun a b => Bool.eqb (fst a) (fst b) && same_paths (snd a) (snd b)) modes_model
-         (fun c => match c with (g, _, touched) => [guard_F09h g touched] end) cases.
+         (fun _ => []) cases.
 
 (* ---- site1: the path template lists the variables in [o1]; the set is iterated in order o1, then in order o2 *)
 Definition site1_in := (list (str * str) * list param * list str * list str)%type.
